@@ -156,8 +156,47 @@ func partialScopeEval(env Env, ent types.Value, in ast.IsScopeNode) (bool, bool)
 var errVariable = fmt.Errorf("variable")
 var errIgnore = fmt.Errorf("ignore")
 
+// containsVariable reports whether v is a variable or a record or set with a variable somewhere inside.
+func containsVariable(v types.Value) bool {
+	switch t := v.(type) {
+	case types.EntityUID:
+		return t.Type == variableEntityType
+	case types.Record:
+		for vv := range t.Values() {
+			if containsVariable(vv) {
+				return true
+			}
+		}
+	case types.Set:
+		for vv := range t.All() {
+			if containsVariable(vv) {
+				return true
+			}
+		}
+	}
+	return false
+}
+
+// isValueWithVariable reports whether the node is a value that contains a variable.
+func isValueWithVariable(in ast.IsNode) bool {
+	n, ok := in.(ast.NodeValue)
+	return ok && containsVariable(n.Value)
+}
+
 // NOTE: nodes is modified in place, so be sure to send unique copy in
 func tryPartial(env Env, nodes []ast.IsNode,
+	mkEval func(values []types.Value) Evaler,
+	mkNode func(nodes []ast.IsNode) ast.IsNode,
+) (ast.IsNode, error) {
+	return tryPartialOperands(env, nodes, false, mkEval, mkNode)
+}
+
+// tryPartialOperands is tryPartial with a choice of how operands that contain a variable are treated.  Attribute
+// access and `has` only look inside their operand (lookInside) and can be evaluated over it.  Every other operator
+// consumes its operands whole, so an operand that contains a variable is as unknown as the variable itself.
+//
+// NOTE: nodes is modified in place, so be sure to send unique copy in
+func tryPartialOperands(env Env, nodes []ast.IsNode, lookInside bool,
 	mkEval func(values []types.Value) Evaler,
 	mkNode func(nodes []ast.IsNode) ast.IsNode,
 ) (ast.IsNode, error) {
@@ -170,6 +209,10 @@ func tryPartial(env Env, nodes []ast.IsNode,
 			continue
 		} else if err != nil {
 			return nil, err
+		}
+		if !lookInside && isValueWithVariable(n) {
+			ok = false
+			continue
 		}
 		nodes[i] = n
 		if !ok {
@@ -214,8 +257,8 @@ func tryPartialUnary(env Env, v ast.UnaryNode, mkEval func(a Evaler) Evaler, wra
 func partial(env Env, n ast.IsNode) (ast.IsNode, error) {
 	switch v := n.(type) {
 	case ast.NodeTypeAccess:
-		return tryPartial(env,
-			[]ast.IsNode{v.Arg},
+		return tryPartialOperands(env,
+			[]ast.IsNode{v.Arg}, true,
 			func(values []types.Value) Evaler {
 				return newAttributeAccessEval(newLiteralEval(values[0]), v.Value)
 			},
@@ -224,8 +267,8 @@ func partial(env Env, n ast.IsNode) (ast.IsNode, error) {
 			},
 		)
 	case ast.NodeTypeHas:
-		return tryPartial(env,
-			[]ast.IsNode{v.Arg},
+		return tryPartialOperands(env,
+			[]ast.IsNode{v.Arg}, true,
 			func(values []types.Value) Evaler {
 				return newPartialHasEval(newLiteralEval(values[0]), v.Value)
 			},
@@ -432,7 +475,7 @@ func partialIfThenElse(env Env, v ast.NodeTypeIfThenElse) (ast.IsNode, error) {
 	thenNode, thenErr := partial(env, v.Then)
 	if errors.Is(thenErr, errIgnore) {
 		return nil, thenErr
-	} else if errors.Is(thenErr, errVariable) {
+	} else if errors.Is(thenErr, errVariable) || isValueWithVariable(thenNode) {
 		thenNode = v.Then
 	} else if thenErr != nil {
 		thenNode = extError(thenErr)
@@ -440,7 +483,7 @@ func partialIfThenElse(env Env, v ast.NodeTypeIfThenElse) (ast.IsNode, error) {
 	elseNode, elseErr := partial(env, v.Else)
 	if errors.Is(elseErr, errIgnore) {
 		return nil, elseErr
-	} else if errors.Is(elseErr, errVariable) {
+	} else if errors.Is(elseErr, errVariable) || isValueWithVariable(elseNode) {
 		elseNode = v.Else
 	} else if elseErr != nil {
 		elseNode = extError(elseErr)
@@ -480,7 +523,7 @@ func partialIsIn(env Env, v ast.NodeTypeIsIn) (ast.IsNode, error) {
 	right, rightErr := partial(env, v.Entity)
 	if errors.Is(rightErr, errIgnore) {
 		return nil, rightErr
-	} else if errors.Is(rightErr, errVariable) {
+	} else if errors.Is(rightErr, errVariable) || isValueWithVariable(right) {
 		right = v.Entity
 	} else if rightErr != nil {
 		right = extError(rightErr)
@@ -510,7 +553,7 @@ func partialAnd(env Env, v ast.NodeTypeAnd) (ast.IsNode, error) {
 	right, rightErr := partial(env, v.Right)
 	if errors.Is(rightErr, errIgnore) {
 		return nil, rightErr
-	} else if errors.Is(rightErr, errVariable) {
+	} else if errors.Is(rightErr, errVariable) || isValueWithVariable(right) {
 		right = v.Right
 	} else if rightErr != nil {
 		right = extError(rightErr)
@@ -540,7 +583,7 @@ func partialOr(env Env, v ast.NodeTypeOr) (ast.IsNode, error) {
 	right, rightErr := partial(env, v.Right)
 	if errors.Is(rightErr, errIgnore) {
 		return nil, rightErr
-	} else if errors.Is(rightErr, errVariable) {
+	} else if errors.Is(rightErr, errVariable) || isValueWithVariable(right) {
 		right = v.Right
 	} else if rightErr != nil {
 		right = extError(rightErr)
